@@ -1,10 +1,11 @@
 """C17 - scalars drawn from entropy: range, determinism, fresh bytes, exact uniformity."""
+import collections
 import hashlib
 
 import ecdsa
 from ecdsa import util
 
-from vf import gen, lib, sigs
+from vf import gen, lib, sigs, toy
 from vf.ref import ecdsa_ref, nt
 from vf.sigs import StreamExhausted, entropy_stream, model_randrange
 
@@ -19,7 +20,7 @@ RULE = ("the entropy function handed to the library is a recording stream (event
 ASSUMPTIONS = ["the model encodes the anchored mechanism (top bitlen(n-2) bits of bitlen(n-2)//8+1 bytes, +1, reject >= n)",
                "uniformity is derived: equal split of accepted first chunks + fresh bytes after rejection (observed in the log)"]
 REQUIRED = {"quick": ["randrange.enum", "randrange.adversarial", "randrange.rejected_ge2", "generate", "sign.entropy", "sign_digest.entropy",
-                      "sign_number.entropy", "replay_same_stream", "key_then_nonce_disjoint", "seed.trytryagain", "seed.overshoot", "prng", "default_entropy.fork", "concurrent_calls", "reentrant_calls", "entropy_source_fails", "default_entropy.threads", "key_history", "shared_prng", "os_urandom_model", "giant_order"]}
+                      "sign_number.entropy", "replay_same_stream", "key_then_nonce_disjoint", "seed.trytryagain", "seed.overshoot", "prng", "default_entropy.fork", "concurrent_calls", "reentrant_calls", "entropy_source_fails", "default_entropy.threads", "key_history", "shared_prng", "os_urandom_model", "giant_order", "default_entropy.range"]}
 EXHAUSTIVE = {"quick": ["randrange: all first chunks for every n in [2,80], n within +-2 of 2^j (j<=12): exact output distribution"],
               "thorough": ["randrange: all first chunks for every n in [2,512], sampled n to 2^12, n within +-2 of 2^j (j<=16)"]}
 
@@ -40,6 +41,7 @@ def shards(tier, seed):
     out.append(("giant_orders", dict(kind="giant", per=2 if q else 12)))
     out.append(("concurrent", dict(kind="concurrent", runs=120 if q else 1500)))
     out.append(("default_entropy", dict(kind="default_entropy", rounds=6 if q else 40)))
+    out.append(("default_range", dict(kind="default_range")))
     out.append(("failing_source", dict(kind="failing_source")))
     out.append(("shared_prng", dict(kind="shared_prng", runs=80 if q else 1500)))
     out.append(("os_urandom_model", dict(kind="os_urandom_model", cnames=["SECP112r2", "NIST192p", "NIST521p", "SECP160r1"] if q else [c.name for c in lib.ALL_CURVES])))
@@ -551,6 +553,27 @@ def run(ctx, name, kind, **kw):
                     [v for v in vals if vals.count(v) > 1][:2],), dict(decisions=s_.decisions[:300]))
         finally:
             hooks.uninstall()
+    elif kind == "default_range":
+        # the default source (no entropy argument): tiny orders make the whole range observable.  Every value of [1, n-1] has to turn up
+        # in 800 draws (the chance of a uniform source missing one is below (n-1) ((n-2)/(n-1))^800 < 10^-40 for n <= 9) and nothing else may
+        for n_ in (3, 4, 5, 6, 7, 9):
+            got_ = collections.Counter(util.randrange(n_) for _ in range(800))
+            ctx.case("default_entropy.range", key=n_, nontrivial=True)
+            outside = sorted(v for v in got_ if not (isinstance(v, int) and 1 <= v <= n_ - 1))
+            missing_ = [v for v in range(1, n_) if v not in got_]
+            ctx.check(not outside, "default_draw_out_of_range", "randrange(%d) with the default source returned %r" % (n_, outside[:5]), dict(n=n_))
+            ctx.check(not missing_, "default_draw_never_returns_value", "randrange(%d) with the default source never returned %r in 800 draws (counts %r)" % (n_, missing_, dict(got_)), dict(n=n_))
+        for t in list(toy.all_curves(11))[:3] + list(toy.all_curves(13))[:2]:
+            f_ = nt.factor(t.N)
+            if f_[-1][0] < 5 or f_[-1][1] != 1 or f_[-1][0] > 19:
+                continue
+            nn_ = f_[-1][0]
+            orders_ = t.orders()
+            G_ = min(P for P in t.pts if orders_[P] == nn_)
+            curve_, dom_ = sigs.toy_lib_curve(t, G_)
+            ds_ = collections.Counter(ecdsa.SigningKey.generate(curve_).privkey.secret_multiplier for _ in range(60 * nn_))
+            ctx.case("default_entropy.range", key="generate|%d" % nn_, nontrivial=True)
+            ctx.check(set(ds_) == set(range(1, nn_)), "default_draw_never_returns_value", "SigningKey.generate on a curve of order %d drew the scalars %r in %d tries; the range is [1, %d]" % (nn_, sorted(ds_), 60 * nn_, nn_ - 1), dict(n=nn_))
     elif kind == "default_entropy":
         # with no entropy function given the library reads the operating system's generator.  Two processes that share a history
         # (fork) must still draw DIFFERENT values: state buffered in the library before the fork would be replayed in both
